@@ -73,6 +73,7 @@ const (
 	defaultEtcdStorageSize           = "10Gi"
 	defaultEtcdReplicas              = 3
 	defaultSnapshotBucketPrefix      = "kafscale-etcd"
+	maxBucketNameLength              = 63
 	defaultSnapshotPrefix            = "etcd-snapshots"
 	defaultSnapshotSchedule          = "0 * * * *"
 	defaultSnapshotImage             = "amazon/aws-cli:2.15.0"
@@ -865,6 +866,10 @@ func sanitizeBucketName(raw string) string {
 		}
 	}
 	out := strings.Trim(b.String(), "-")
+	if len(out) > maxBucketNameLength {
+		// S3 bucket names are limited to 63 characters and must end in a letter or digit.
+		out = strings.TrimRight(out[:maxBucketNameLength], "-")
+	}
 	if out == "" {
 		return defaultSnapshotBucketPrefix
 	}
